@@ -12,24 +12,32 @@ COMMON_ASSUMPTIONS = [
 ]
 
 
+def _styled(r, case):
+    """One run in eight declares its variables under other names (leading underscores, numbered
+    names whose natural order is not their lexicographic order, non-ASCII names)."""
+    if r.random() < 0.125:
+        return gen.rename_case(case, r.choice(gen.NAME_STYLES))
+    return case
+
+
 def _c13_gen(r, tier):
-    return gen.gen_c13(r)
+    return _styled(r, gen.gen_c13(r))
 
 
 def _c12_gen(r, tier):
-    return gen.gen_c12(r)
+    return _styled(r, gen.gen_c12(r))
 
 
 def _c14_gen(r, tier):
-    return gen.gen_c14(r, tier)
+    return _styled(r, gen.gen_c14(r, tier))
 
 
 def _c06_gen(r, tier):
-    return gen.gen_c06(r, tier)
+    return _styled(r, gen.gen_c06(r, tier))
 
 
 def _c07_gen(r, tier):
-    return gen.gen_c07(r, tier)
+    return _styled(r, gen.gen_c07(r, tier))
 
 
 _PEER_RULE = (
@@ -43,7 +51,7 @@ _PEER_RULE = (
 )
 
 def _c20_gen(r, tier):
-    return gen.gen_c20(r, tier)
+    return _styled(r, gen.gen_c20(r, tier))
 
 
 def _c20_sweep(tier):
@@ -92,7 +100,7 @@ def _c20_sweep(tier):
 
 
 def _c18_gen(r, tier):
-    return gen.gen_c18(r, tier)
+    return _styled(r, gen.gen_c18(r, tier))
 
 
 PROPS = {
@@ -181,6 +189,12 @@ PROPS = {
     },
     "C14": {
         "gen": _c14_gen,
+        "sweep": gen.c14_sweep_cases,
+        "exhaustive_note": (
+            "sweep part: prefix-length enumeration -- an adversary sharing variable names with the target at other positions, then EVERY number "
+            "k = 0..400 (thorough; 0..48 step 3 in quick) of throw-away compilations over k distinct variable orderings, then the target observed "
+            "(Jacobian and Hessian entries of a bilinear term, two solves): the wrap-around of any fixed-size table between the models falls on some k"
+        ),
         "level": "exploration",
         "rule": (
             "seeded histories: a target model M (long-lived copy built before, and/or fresh copy built after) and a prefix of 1-6 adversary models "
